@@ -27,7 +27,7 @@ ADAPTERS = ["any_iter", "await_each", "apply", "sync"]  # C19
 INVARIANTS = ["NoUseAfterFault", "NoPullAfterStop", "DeclZip", "DeclZipStrict", "DeclChain",
               "DeclISlice", "DeclMerge", "DeclSorted", "DeclMinMax", "DeclPairwise", "DeclBatched",
               "DeclFilter", "DeclMap", "DeclStarMap", "DeclEnumerate", "DeclTakeDrop", "DeclCompress", "DeclAccumulate",
-              "DeclCycle", "DeclZipLongest"]
+              "DeclCycle", "DeclZipLongest", "DeclGrouper"]
 
 TIERS = {
     "quick": {"MaxLen": 3, "MaxSrc": 2},
@@ -177,7 +177,7 @@ def judge(args):
             flavours.append({"src": ["clsraiseclose"] * nsrc_, "call": "asyncdef"})
     if "C06" in want and kind == "fault":
         flavours.append({"src": "clstruthy", "call": "asyncdef"})
-    if "C01" in want and kind == "full" and not is_agg and tool != "iter":
+    if "C01" in want and kind == "full" and not is_agg and tool != "iter" and not cfg["par"].get("alias"):
         flavours.append({"src": "list", "call": "asyncdef"})    # plain lists, edited by the caller once a tool is through with them
         if any(e["ev"] == "call" for e in case["log"]):
             flavours.append({"src": "cls", "call": "objfalsy"})   # "all predicates/functions": also a callable object that is falsy
